@@ -1,1 +1,290 @@
-crate::list![];
+//! C09 (lexical grammar + precedence table): the recognisers accept exactly
+//! the documented spellings and split them the documented way, compared with
+//! small reference scanners written from the language reference.
+use crate::c06_lexer::noop_almost;
+use crate::cover;
+use crate::nd::{any, assume, Bytes};
+use roto::verif_api::{relative_associativity, BinOp, Keyword, Lexer, Token};
+use unicode_ident::{is_xid_continue, is_xid_start};
+
+fn is_digit(b: u8) -> bool {
+    b.is_ascii_digit()
+}
+fn is_digit_(b: u8) -> bool {
+    b.is_ascii_digit() || b == b'_'
+}
+fn is_word(b: u8) -> bool {
+    // ASCII XID_Continue or '_'
+    b.is_ascii_alphanumeric() || b == b'_'
+}
+
+/// Reference scanner for numeric literals over ASCII input, written from the
+/// documented grammar: digits (with `_`), optional `.digits` (not when the
+/// `.` is followed by an identifier start, `.` or `_`), optional exponent
+/// `e|E [+|-] digits`, then a type suffix (identifier characters).
+/// Returns (is_float, number length, total length).
+fn ref_number(s: &[u8]) -> Option<(bool, usize, usize)> {
+    if s.is_empty() || !is_digit(s[0]) {
+        return None;
+    }
+    let mut i = 0;
+    while i < s.len() && is_digit_(s[i]) {
+        i += 1;
+    }
+    let mut float = false;
+    let mut plain_int = false;
+    if i < s.len() && s[i] == b'.' {
+        let stop = i + 1 < s.len() && (s[i + 1].is_ascii_alphabetic() || s[i + 1] == b'.' || s[i + 1] == b'_');
+        if stop {
+            plain_int = true;
+        } else {
+            float = true;
+            i += 1;
+            while i < s.len() && is_digit_(s[i]) {
+                i += 1;
+            }
+        }
+    }
+    if !plain_int && i < s.len() && (s[i] == b'e' || s[i] == b'E') {
+        float = true;
+        i += 1;
+        if i < s.len() && (s[i] == b'+' || s[i] == b'-') {
+            i += 1;
+        }
+        while i < s.len() && is_digit_(s[i]) {
+            i += 1;
+        }
+    }
+    let num = i;
+    while i < s.len() && is_word(s[i]) {
+        i += 1;
+    }
+    Some((float, num, i))
+}
+
+macro_rules! number_grammar {
+    ($name:ident, $n:expr, $unwind:expr) => {
+        #[cfg_attr(kani, kani::proof)]
+        #[cfg_attr(kani, kani::unwind($unwind))]
+        pub fn $name() {
+            let b: Bytes<$n> = Bytes::any_ascii();
+            let s = b.as_str().unwrap();
+            let mut lx = Lexer::new(s);
+            let got = lx.verif_number();
+            let want = ref_number(b.bytes());
+            match (got, want) {
+                (None, None) => {}
+                (Some((tok, span)), Some((float, num, total))) => {
+                    assert!(span.start == 0 && span.end == total, "numeric literal has the wrong extent");
+                    match tok {
+                        Token::Integer(n, suf) => {
+                            assert!(!float, "float spelled literal lexed as integer");
+                            assert!(n.len() == num && suf.len() == total - num, "digits/suffix split");
+                        }
+                        Token::Float(n, suf) => {
+                            assert!(float, "integer spelled literal lexed as float");
+                            assert!(n.len() == num && suf.len() == total - num, "digits/suffix split");
+                        }
+                        _ => assert!(false, "not a numeric token"),
+                    }
+                    cover!(float && total > num, "float_with_suffix");
+                    cover!(!float && total > num, "int_with_suffix");
+                }
+                _ => assert!(false, "recogniser and grammar disagree on whether this is a number"),
+            }
+        }
+    };
+}
+number_grammar!(c09_number_ascii_4, 4, 7);
+number_grammar!(c09_number_ascii_5, 5, 8);
+
+/// `0x` hexdigits*  and  `AS` digits+
+macro_rules! hex_asn_grammar {
+    ($name:ident, $n:expr, $unwind:expr) => {
+        #[cfg_attr(kani, kani::proof)]
+        #[cfg_attr(kani, kani::unwind($unwind))]
+        pub fn $name() {
+            let b: Bytes<$n> = Bytes::any_ascii();
+            let s = b.as_str().unwrap();
+            let by = b.bytes();
+            // hex
+            let mut lx = Lexer::new(s);
+            let got = lx.verif_hex_number();
+            if by.len() >= 2 && by[0] == b'0' && by[1] == b'x' {
+                let mut i = 2;
+                while i < by.len() && by[i].is_ascii_hexdigit() {
+                    i += 1;
+                }
+                match got {
+                    Some((Token::Hex(t), span)) => assert!(span.end == i && t.len() == i, "hex literal extent"),
+                    _ => assert!(false, "0x... not lexed as hex"),
+                }
+                cover!(i > 2, "hex_with_digits");
+            } else {
+                assert!(got.is_none(), "hex recogniser fired without 0x prefix");
+            }
+            // AS number
+            let mut lx = Lexer::new(s);
+            let got = lx.verif_as_number();
+            let mut i = 2;
+            while by.len() >= 2 && i < by.len() && by[i].is_ascii_digit() {
+                i += 1;
+            }
+            if by.len() >= 3 && by[0] == b'A' && by[1] == b'S' && i > 2 {
+                match got {
+                    Some((Token::Asn(t), span)) => assert!(span.end == i && t.len() == i, "AS number extent"),
+                    _ => assert!(false, "AS<digits> not lexed as AS number"),
+                }
+                cover!(true, "asn");
+            } else {
+                assert!(got.is_none(), "AS recogniser fired on a non-AS-number");
+            }
+        }
+    };
+}
+hex_asn_grammar!(c09_hex_asn_ascii_4, 4, 7);
+hex_asn_grammar!(c09_hex_asn_ascii_5, 5, 8);
+
+fn keyword(s: &str) -> Option<Keyword> {
+    Some(match s {
+        "accept" => Keyword::Accept,
+        "const" => Keyword::Const,
+        "dep" => Keyword::Dep,
+        "else" => Keyword::Else,
+        "enum" => Keyword::Enum,
+        "filter" => Keyword::Filter,
+        "filtermap" => Keyword::FilterMap,
+        "for" => Keyword::For,
+        "fn" => Keyword::Fn,
+        "if" => Keyword::If,
+        "import" => Keyword::Import,
+        "in" => Keyword::In,
+        "let" => Keyword::Let,
+        "match" => Keyword::Match,
+        "pkg" => Keyword::Pkg,
+        "record" => Keyword::Record,
+        "reject" => Keyword::Reject,
+        "return" => Keyword::Return,
+        "std" => Keyword::Std,
+        "super" => Keyword::Super,
+        "test" => Keyword::Test,
+        "while" => Keyword::While,
+        _ => return None,
+    })
+}
+
+/// identifiers: (XID_Start | `_`) XID_Continue*, keywords and booleans by the
+/// documented table, consuming exactly the word. Every UTF-8 string <= N bytes.
+macro_rules! ident_grammar {
+    ($name:ident, $n:expr, $unwind:expr, $ascii:expr) => {
+        #[cfg_attr(kani, kani::proof)]
+        #[cfg_attr(kani, kani::unwind($unwind))]
+        #[cfg_attr(kani, kani::stub(roto::parser::lexer::Lexer::record_almost_keyword, noop_almost))]
+        pub fn $name() {
+            let b: Bytes<$n> = if $ascii { Bytes::any_ascii() } else { Bytes::any() };
+            if let Some(s) = b.as_str() {
+                // reference: length of the leading word
+                let mut end = 0;
+                let mut first = true;
+                for (i, c) in s.char_indices() {
+                    let ok = if first { is_xid_start(c) || c == '_' } else { is_xid_continue(c) };
+                    if !ok {
+                        break;
+                    }
+                    first = false;
+                    end = i + c.len_utf8();
+                }
+                let mut lx = Lexer::new(s);
+                let got = lx.verif_keyword_or_ident();
+                if end == 0 {
+                    assert!(got.is_none(), "identifier recogniser fired on a non-identifier start");
+                } else {
+                    let word = &s[..end];
+                    match got {
+                        Some((tok, span)) => {
+                            assert!(span.start == 0 && span.end == end, "identifier has the wrong extent");
+                            match tok {
+                                Token::Keyword(k) => assert!(keyword(word) == Some(k), "wrong keyword"),
+                                Token::Bool(v) => assert!((word == "true" && v) || (word == "false" && !v)),
+                                Token::Ident(x) => {
+                                    assert!(x.len() == word.len(), "identifier text");
+                                    assert!(keyword(word).is_none() && word != "true" && word != "false", "keyword lexed as identifier");
+                                }
+                                _ => assert!(false, "unexpected token kind"),
+                            }
+                            cover!(end < s.len(), "word_followed_by_something");
+                            cover!(end >= 2 && !s.is_ascii(), "non_ascii_word");
+                        }
+                        None => assert!(false, "identifier not recognised"),
+                    }
+                }
+            }
+        }
+    };
+}
+ident_grammar!(c09_ident_3, 3, 6, false);
+ident_grammar!(c09_ident_4, 4, 7, false);
+
+fn binop(i: u8) -> BinOp {
+    match i {
+        0 => BinOp::And,
+        1 => BinOp::Or,
+        2 => BinOp::Eq,
+        3 => BinOp::Ne,
+        4 => BinOp::Lt,
+        5 => BinOp::Le,
+        6 => BinOp::Gt,
+        7 => BinOp::Ge,
+        8 => BinOp::Add,
+        9 => BinOp::Sub,
+        10 => BinOp::Mul,
+        11 => BinOp::Div,
+        _ => BinOp::Mod,
+    }
+}
+
+/// documented levels: logical < comparison < additive < multiplicative
+fn level(i: u8) -> u8 {
+    match i {
+        0 | 1 => 0,
+        2..=7 => 1,
+        8 | 9 => 2,
+        _ => 3,
+    }
+}
+
+/// All 13 x 13 operator pairs (symbolic): which of two adjacent operators
+/// binds tighter follows the documented precedence levels, equal levels are
+/// left-associative, comparison chains and mixed `&&`/`||` are rejected.
+#[cfg_attr(kani, kani::proof)]
+pub fn c09_precedence_table() {
+    let a: u8 = any();
+    let b: u8 = any();
+    assume(a < 13 && b < 13);
+    let got = relative_associativity(&binop(a), &binop(b));
+    let want = if (a == 0 && b == 1) || (a == 1 && b == 0) {
+        2
+    } else if level(a) < level(b) {
+        1
+    } else if level(a) > level(b) {
+        0
+    } else if level(a) == 1 {
+        2
+    } else {
+        0
+    };
+    assert!(got == want, "relative associativity differs from the documented table");
+    cover!(got == 0, "left");
+    cover!(got == 1, "right");
+    cover!(got == 2, "rejected");
+}
+
+crate::list![
+    c09_number_ascii_4,
+    c09_number_ascii_5,
+    c09_hex_asn_ascii_4,
+    c09_hex_asn_ascii_5,
+    c09_ident_3,
+    c09_ident_4,
+    c09_precedence_table,
+];
